@@ -358,15 +358,6 @@ Definition clamp_insert (i : Z) (len : nat) : nat :=
   let n := Z.of_nat len in
   let j := if i <? 0 then Z.max 0 (i + n) else Z.min i n in Z.to_nat j.
 
-(* insert(i, v): _add(v); _data.insert(i, v) *)
-Definition ml_insert (w : world) (ir : id) (i : Z) (v : id) : world * bool :=
-  let '(w1, ok) := ml_add_hook w ir v in
-  (set_kids w1 (upd (kids w1) ir (insert_at (clamp_insert i (length (kids w1 ir))) v (kids w1 ir))), ok).
-
-(* append(v) = insert(len(self), v): len is read BEFORE _add *)
-Definition ml_append (w : world) (ir v : id) : world * bool :=
-  ml_insert w ir (Z.of_nat (length (kids w ir))) v.
-
 (* ListWrapper.__setitem__ (item and plain-slice assignment).  The list the assignment produces is worked out
    before anything is touched: list places the values (pre ++ vs ++ post), then every value just assigned stays
    only at the last position it was assigned to -- a module assigned while it sits elsewhere in this very list,
@@ -414,6 +405,18 @@ Definition ml_assign (w : world) (ir : id) (new : list id) : world * bool :=
   let '(w1, ok1) := fold_ok (fun w v => ml_remove_hook w ir v) (filter (fun x => negb (mem x new)) old) w in
   let '(w2, ok2) := fold_ok (fun w v => ml_add_hook w ir v) (filter (fun x => negb (mem x old)) new) w1 in
   (set_kids w2 (upd (kids w2) ir new), ok1 && ok2).
+
+(* insert(i, v) is `self[i:i] = [v]` (after the index conversion of IndexCheck.v), as the sequence interface defines it: a module
+   that is already in the list is moved to where the built-in list puts it (fix after red-team round 3; before, _add(v) removed v
+   from the list first and the index was applied to the shortened list) *)
+Definition ml_insert (w : world) (ir : id) (i : Z) (v : id) : world * bool :=
+  let l := kids w ir in
+  let k := clamp_insert i (length l) in
+  ml_assign w ir (assign_slice l k k [v]).
+
+(* append(v) = insert(len(self), v) *)
+Definition ml_append (w : world) (ir v : id) : world * bool :=
+  ml_insert w ir (Z.of_nat (length (kids w ir))) v.
 
 (* index normalisation for item access: Some position or IndexError *)
 Definition norm_index (i : Z) (len : nat) : option nat :=
